@@ -10,6 +10,7 @@ import (
 	"encoding/base64"
 	"fmt"
 	"math/big"
+	"strconv"
 	"strings"
 	"sync"
 
@@ -23,7 +24,7 @@ import (
 func init() {
 	register(stream{
 		name: "did",
-		rule: "keys of Ed25519, secp256k1 (native and ECDSA-typed), P-256, P-384, P-521 and RSA: FromPubKey → String → Parse → PubKey must give back an equal DID and an equal key, and DIDs of distinct keys differ; the same calls from 8 goroutines at once on distinct keys of one algorithm must agree with the sequential results (a sampled schedule test); did:key strings carrying alternative encodings of the same key material (uncompressed and hybrid points, the other parity byte, off-curve x coordinates, wrong lengths, non-minimal or trailing DER, non-minimal varints, unsupported and unknown multicodec codes, other multibase prefixes, invalid base58 characters, missing prefix); the per-codec unmarshalling verdict is computed by the harness with the crypto libraries directly and given to the model as an oracle. Added later: every key extraction is repeated (same value, re-parsed value, ToPubKey) and must answer alike; RSA-3072 and RSA-4096 identifiers (fixed public keys); ECDSA-typed secp256k1 keys must come back as the same POINT; the bytes of an extracted key are overwritten (DID, text and later extractions unchanged); key extraction from the undefined DID, then from a valid one. Non-trivial = strings that pass the prefix test. Distinct = distinct protocol lines.",
+		rule: "keys of Ed25519, secp256k1 (native and ECDSA-typed), P-256, P-384, P-521 and RSA: FromPubKey → String → Parse → PubKey must give back an equal DID and an equal key, and DIDs of distinct keys differ; the same calls from 8 goroutines at once on distinct keys of one algorithm must agree with the sequential results (a sampled schedule test); did:key strings carrying alternative encodings of the same key material (uncompressed and hybrid points, the other parity byte, off-curve x coordinates, wrong lengths, non-minimal or trailing DER, non-minimal varints, unsupported and unknown multicodec codes, other multibase prefixes, invalid base58 characters, missing prefix); the per-codec unmarshalling verdict is computed by the harness with the crypto libraries directly and given to the model as an oracle. Added later: every key extraction is repeated (same value, re-parsed value, ToPubKey) and must answer alike; RSA-3072 and RSA-4096 identifiers (fixed public keys); ECDSA-typed secp256k1 keys must come back as the same POINT; the bytes of an extracted key are overwritten (DID, text and later extractions unchanged); key extraction from the undefined DID, then from a valid one. Multicodec codes that agree with a supported one in their low 8, 16 or 32 bits only; an identifier of a key type outside the specification's six that Go accepts is reported whatever the model says; round trips of RSA public keys with moduli of 2049 … 8192 bits. Non-trivial = strings that pass the prefix test. Distinct = distinct protocol lines.",
 		run:  runDidStream,
 		eval: evalDid,
 		cmp: func(line, g, m string) string {
@@ -34,6 +35,18 @@ func init() {
 				return ""
 			}
 			f := strings.Fields(line)
+			if f[0] == "did.parse" && strings.HasPrefix(g, "ok") {
+				// the supported key types are the specification's, written out here: the model reads the parser's whitelist from the
+				// source (a regenerated table follows a change of that table), so an identifier of any other type that Go accepts is
+				// reported whatever the model says
+				if code, _, ok := codeAndMaterial(unhx(f[1])); ok {
+					switch code {
+					case 0xed, 0xe7, 0x1200, 0x1201, 0x1202, 0x1205:
+					default:
+						return fmt.Sprintf("go accepts an identifier of the unsupported key type 0x%x", code)
+					}
+				}
+			}
 			if f[0] == "did.parse" && g == "err" && strings.HasPrefix(m, "ok") {
 				// C16 says which strings the parser must REFUSE, and that the identifier FromPubKey prints for a key parses back. A
 				// string the model's parser lets through but from which no key can be extracted (bare codec, key material of the wrong
@@ -263,6 +276,18 @@ func didKey(alg, i string) (crypto.PubKey, error) {
 		_, pub, err = crypto.GenerateECDSAKeyPairWithCurve(elliptic.P521(), rand.Reader)
 	case "rsa":
 		_, pub, err = crypto.GenerateRSAKeyPair(2048, rand.Reader)
+	case "rsa2049", "rsa5120", "rsa6144", "rsa8192":
+		// a PUBLIC key with a modulus of that many bits (an odd number with the top bit set — nobody needs to factor it here:
+		// the identifier round trip only marshals and unmarshals the public key)
+		bits, _ := strconv.Atoi(strings.TrimPrefix(alg, "rsa"))
+		n := new(big.Int).Lsh(big.NewInt(1), uint(bits-1))
+		n.Add(n, new(big.Int).Lsh(big.NewInt(0x5a5a5a5a5a5a5a5b), uint(bits/2)))
+		n.Add(n, big.NewInt(0x1234567))
+		n.SetBit(n, 0, 1)
+		var pkix []byte
+		if pkix, err = x509.MarshalPKIXPublicKey(&rsa.PublicKey{N: n, E: 65537}); err == nil {
+			pub, err = crypto.UnmarshalRsaPublicKey(pkix)
+		}
 	case "rsa3072", "rsa4096":
 		// fixed public keys (generated once with crypto/rsa): key generation at these sizes can take many seconds on a
 		// loaded machine, and only the PUBLIC key is needed for the identifier round trip
@@ -425,6 +450,9 @@ func runDidStream(c *ctx) error {
 	c.emit("go.did.roundtrip rsa 0", "did.roundtrip:rsa", true, "roundtrip:rsa")
 	c.emit("go.did.roundtrip rsa3072 0", "did.roundtrip:rsa", true, "roundtrip:rsa3072")
 	c.emit("go.did.roundtrip rsa4096 0", "did.roundtrip:rsa", true, "roundtrip:rsa4096")
+	for _, a := range []string{"rsa2049", "rsa5120", "rsa6144", "rsa8192"} {
+		c.emit("go.did.roundtrip "+a+" 0", "did.roundtrip:rsa", true, "roundtrip:"+a)
+	}
 	for i := 0; i < 8; i++ {
 		c.emit(fmt.Sprintf("go.did.roundtrip secp256k1-ecdsa p%d", i), "did.roundtrip:secp256k1-ecdsa", true, "roundtrip:secp256k1-ecdsa")
 	}
@@ -460,7 +488,13 @@ func runDidStream(c *ctx) error {
 			add(code, fl)
 			add(0xec, m)   // x25519 code
 			add(0x1203, m) // unknown code
-			add(0x55, m)   // raw
+			// codes that agree with the supported one in their low 8, 16 or 32 bits only
+			add(code+0x100, m)
+			add(code+0x10000, m)
+			add(code+0x20000, m)
+			add(code+0x100000000, m)
+			add(code|1<<62, m)
+			add(0x55, m) // raw
 			// non-minimal varint of the code
 			texts = append(texts, "did:key:z"+base58.Encode(append(append(varint.ToUvarint(code)[:len(varint.ToUvarint(code))-1], varint.ToUvarint(code)[len(varint.ToUvarint(code))-1]|0x80, 0x00), m...)))
 			switch code {
